@@ -260,6 +260,28 @@ CHECKS = {
               "already suffice, fix: e1cdda6)."),
         technique="TLA+ exact binomial model decided by TLC on grids + exported answer tables replayed; definition terms (exact rationals / quadrature) beyond the grids",
     ),
+    "C19": dict(
+        cat="exploration",
+        text=("specs/PsdDsp.tla (one TLC configuration per part). rescale: linear band layouts on an integer tick grid - kept bands, per-band "
+              "mean square = sum_j P_j |band /\\ inband_j|, densities, the extendends rule; TLC checks Conservation (output tiling the "
+              "input keeps the total), NoCreation and contiguity on 576 layouts and exports the expected values; every layout replayed "
+              "(vector and matrix input, exact to 1e-13), plus seeded logarithmic layouts with geometric-mean edges as terms and the "
+              "default octave scales. resample: index model for n <= 12, p, q <= 6 (reduced ratio, ceil(n p/q), FIR length, which "
+              "outputs are original samples; LengthLaw by TLC); shape along every axis position, constants bit-exact, originals kept, "
+              "and EVERY output sample against the Kaiser-windowed-sinc FIR definition (term, 30 digits); tone accuracy vs pts. "
+              "fixtime: tick grid dt = 8: every step pattern over {8,7,9,10,16,0,4,20} up to 5 (thorough 6) samples with expected "
+              "length, turning points, alignment shift (fraction of a tick), nearest-time map (ties to the earlier time) and "
+              "previous-value maps for tolerances 0, 0.001, 0.25; UniformUnchanged by TLC; replayed into fixtime and into both helper "
+              "variants (vectorised + numba bodies extracted from the tree); unsorted / drop-out / base / packaging laws. area / "
+              "interp: 13 slopes (both sides of the s = -1 switch, exactly -3 dB/octave) x 4 ratios against the quadrature of the "
+              "log-log interpolant, additivity, reproduction at own frequencies, end-point round-off, trapezoid cross-check."),
+        ref="4/C19",
+        note=("Trusted: TLC, mpmath, generic evaluator. Inside psd.area's |s+1| < 1e-5 switch the s = -1 formula is accepted to "
+              "1e-5 ln(f2/f1). fixtime's despiking / outlier-time heuristics are off or cannot trigger. resample's `tnew` positions "
+              "are outside the statement (observation in DESIGN 9.2). Two genuine defects repaired (fixtime previous-value boundary, "
+              "fix: dc0d341; psd.interp end-point round-off, fix: 161f28c)."),
+        technique="TLA+ integer band/index/tick models decided by TLC and replayed exhaustively; definition terms (quadrature, FIR) evaluated by the generic evaluator",
+    ),
     "C03": dict(
         cat="exploration",
         text=("specs/Srs.tla: the option lattice 6 stype x 4 ic x 3 time x 6 peak x eqsine (864 points), the integer index model "
